@@ -8,5 +8,5 @@ list() {
   for d in seeded/*/; do s=$(basename "$d"); p=${s%%-*}; echo "$p $d/patch.diff $s"; done
   for f in demos/*.diff; do s=$(basename "$f" .diff); p=${s%%-*}; echo "$p $f demo:$s"; done
 }
-list | grep -v "^C08 " | { if [ $# -gt 0 ]; then grep -E "^($(echo "$@" | tr ' ' '|')) "; else cat; fi; } | \
+list | { if [ $# -gt 0 ]; then grep -E "^($(echo "$@" | tr ' ' '|')) "; else cat; fi; } | \
   xargs -P "$J" -L 1 bash -c 'r=$(tools/seedtest_ovl.sh "$1" "$0" 2>&1 | tail -1); echo "$2: $r"'
